@@ -5,7 +5,8 @@ from gen.rollcommon import model_lines, compare, classify, describe, extra_cover
 
 RULE = ("sweep: min_size in {0,1,2,100} x pre-existing active file in {absent, 0, min-1, min, min+1 bytes} x first "
         "build in append/truncate mode x rollers {delete, window(base 0/1, count 0..3, plain/.gz), window with the "
-        "archives on ANOTHER file system} x histories: "
+        "archives on ANOTHER file system} (in a sixth of the append-mode cases the configured log path is a SYMBOLIC LINK "
+        "to the file with the pre-existing content) x histories: "
         "1-5 appends; appends + restart (either mode) + appends (a second lifetime over the files left behind); and a "
         "burst of 8 barrier-released threads issuing the first appends followed by sequential appends; "
         "for half of the combinations also a history whose first record(s) hit a roller set to FAIL (Roll::roll "
@@ -49,7 +50,7 @@ def cases(rng, tier):
             for pre in pres:
                 for a0 in (1, 0):
                     for rl in R:
-                        prev = [0] if pre is None else [1, rc.rec_bytes(rng, "pre", pre)]
+                        prev = [0] if pre is None else [2 if (a0 == 1 and rng.chance(1, 6)) else 1, rc.rec_bytes(rng, "pre", pre)]
                         kind = rng.below(4)
                         ops = []
                         if kind == 3:
